@@ -78,6 +78,36 @@ pub fn ea_units(name: &'static str, tier: Tier, seed: u64) -> Vec<Unit> {
                 }
             }
         }));
+        // ---- (TR) every address register x upper-byte patterns that set and clear every bit
+        {
+            let dom = "all 8 address registers x upper byte {00, 01, 5a, a5, 80, ff} x one operand in on-chip RAM, DRAM and the vector area x 2 displacements: the upper byte takes no part in addressing whichever register holds the address".to_string();
+            units.push(Unit::new(&format!("{}/TR", name), 1, &dom, move |ctx, _| {
+                let regs = dom::background_regs();
+                let disps: Vec<u32> = match shape.mode {
+                    Mode::D16 => vec![0x0010, 0xfff0],
+                    Mode::D24 => vec![0x000010, 0xfffff0],
+                    _ => vec![0],
+                };
+                for ra in 0..8u8 {
+                    for &ea in &[0x00ff_d080u32, 0x0048_0080, 0x0000_0080] {
+                        for &d in disps.iter() {
+                            let mut f = default_fields(sz);
+                            f.ra = ra;
+                            // the data register must not be (part of) the address register
+                            let dr = (ra + 2) & 7;
+                            f.rs = if sz == Sz::L { dr } else { dr | 8 };
+                            f.rd = f.rs;
+                            f.data = d;
+                            for &t in &[0x00u8, 0x01, 0x5a, 0xa5, 0x80, 0xff] {
+                                let base = base_for(&shape, ea, d, t);
+                                let c = build_case(&ctx.isa, row, &f, &shape, base, 0x1234_5678, if shape.load { Some(ea) } else { None }, code_pc_for(ea), 0x00, &regs);
+                                ctx.run(&c);
+                            }
+                        }
+                    }
+                }
+            }));
+        }
         // ---- values near 0 and near 2^32 (sums that wrap)
         {
             let mut bases: Vec<u32> = Vec::new();
